@@ -75,6 +75,19 @@ pub struct Entry {
 }
 pub static mut TABLE: [Entry; QMAX] = [Entry { valid: false, dom: 0, t: Transcript::new(), out: [0; OMAX] }; QMAX];
 pub static mut NQ: usize = 0;
+/// set by the RNG models when an injected failure has been returned to the library; the KDF models
+/// treat "key derivation starts although the random source failed during this operation" as a
+/// fail-closed violation and end the path there (what follows is the expensive half of PBKW)
+pub static mut RNG_FAILED: bool = false;
+pub fn kdf_entry_guard() {
+    unsafe {
+        if RNG_FAILED {
+            assert!(false, "key derivation started after the random source had failed (not fail-closed)");
+            #[cfg(kani)]
+            kani::assume(false);
+        }
+    }
+}
 
 /// number of oracle queries so far (harness-visible: the log doubles as the primitive-call transcript
 /// for the spec-conformance harnesses)
